@@ -24,7 +24,7 @@ ASSUMPTIONS = [
 ]
 
 ops_s = st.lists(st.one_of(st.just(['reset']), st.tuples(st.just('step'), st.integers(0, 7)).map(list), st.just(['obs']), st.just(['state']),
-                           st.tuples(st.just('step'), st.integers(0, 3)).map(list)), min_size=1, max_size=40).map(lambda ops: [['reset']] + ops)
+                           st.tuples(st.just('step'), st.integers(0, 3)).map(list), st.tuples(st.just('reseed'), st.integers(0, 5)).map(list)), min_size=1, max_size=40).map(lambda ops: [['reset']] + ops)
 
 
 def snap():
@@ -69,7 +69,7 @@ class Driver:
 
     def op_env(self, slot, kind, arg):
         slot %= len(self.envs)
-        op = [kind] if kind != 'step' else ['step', arg]
+        op = [kind] if kind not in ('step', 'reseed') else [kind, arg if kind == 'step' else self.seeds[slot] + (arg % 2)]
         self._run(slot, op)
 
     def op_debug(self, flag):
@@ -115,6 +115,21 @@ class Driver:
                         self.ctx.fail(f'environment {cfg["base"]} {cfg["mods"]} seed {seed}: the trace under interleaving with other environments/global-RNG noise differs '
                                       f'from the same program run alone (debug={debug}) at trace entry {k}: {str(self.traces[slot][k])[:160]} vs alone {str(alone[k])[:160]}',
                                       {'kind': 'interleaving'})
+            # a re-seeded instance behaves like a fresh environment given that seed
+            for slot, cfg in enumerate(self.cfgs):
+                ops, tr = self.ops[slot], self.traces[slot]
+                marks = [i for i, e in enumerate(tr) if e[0] == 'reseed']
+                opmarks = [i for i, o in enumerate(ops) if o[0] == 'reseed']
+                for m, om in zip(marks, opmarks):
+                    end = min([x for x in marks if x > m] + [len(tr)])
+                    oend = min([x for x in opmarks if x > om] + [len(ops)])
+                    fresh = trace.run_ops(configs.build(cfg, ops[om][1]), [['reset']] + ops[om + 1:oend])
+                    got = [['reset', tr[m][2]]] + tr[m + 1:end]
+                    if fresh != got:
+                        k = next((i for i, (a, b) in enumerate(zip(fresh, got)) if a != b), min(len(fresh), len(got)))
+                        self.ctx.fail(f'environment {cfg["base"]} {cfg["mods"]}: after set_seed({ops[om][1]}) on a used instance the trace differs from a fresh environment '
+                                      f'with that seed at entry {k}: {str(got[k])[:140] if k < len(got) else None} vs fresh {str(fresh[k])[:140] if k < len(fresh) else None}',
+                                      {'kind': 'reseed'})
         finally:
             reset_gv_debug(None)
         switches = sum(1 for a, b in zip(self.schedule, self.schedule[1:]) if a != b)
@@ -122,7 +137,7 @@ class Driver:
         for slot, (cfg, seed) in enumerate(zip(self.cfgs, self.seeds)):
             if self.ops[slot] and trace.run_ops(configs.build(cfg, seed + 1), self.ops[slot]) != self.traces[slot]:
                 consumed += 1
-        cl = [f'slots={len(self.envs)}'] + (['switches>=2'] if switches >= 2 else []) + (['randomness_consumed'] if consumed else []) + (['noise'] if self.noise else [])
+        cl = [f'slots={len(self.envs)}'] + (['reseeded'] if any(o[0] == 'reseed' for ops in self.ops for o in ops) else []) + (['switches>=2'] if switches >= 2 else []) + (['randomness_consumed'] if consumed else []) + (['noise'] if self.noise else [])
         self.ctx.ev.case(None, nt=(switches >= 2 and consumed > 0), classes=cl, key=[self.cfgs, self.seeds, self.ops],
                          sample={'op_log (first 40)': getattr(self, 'log', [])[:40], 'cfgs': self.cfgs, 'seeds': self.seeds, 'schedule': self.schedule[:40], 'noise_ops': self.noise})
 
@@ -146,7 +161,7 @@ def machine(tier, ctx, last):
             self.start(cfgs, seeds[: len(cfgs)], unseeded)
 
         @built
-        @rule(slot=st.integers(0, 2), kind=st.sampled_from(['reset', 'step', 'step', 'step', 'obs', 'state']), arg=st.integers(0, 7))
+        @rule(slot=st.integers(0, 2), kind=st.sampled_from(['reset', 'step', 'step', 'step', 'obs', 'state', 'reseed']), arg=st.integers(0, 7))
         def env_op(self, slot, kind, arg):
             self.op('env', slot, kind, arg)
 
@@ -310,7 +325,7 @@ CHECKS = [
     Check('interleaving_machine', oracle_machine, machine=machine, examples={'quick': 60, 'thorough': 200}, steps={'quick': 40, 'thorough': 60},
           shards={'quick': 6, 'thorough': 16},
           rule='2-3 live seeded environments + one unseeded, interleaved with debug toggles and draws/reseeds of numpy.random, random and the library generator; each slot replayed alone (debug on and off); globals snapshotted around every seeded op',
-          required=['switches>=2', 'randomness_consumed', 'noise']),
+          required=['switches>=2', 'randomness_consumed', 'noise', 'reseeded']),
     Check('cross_process', oracle_prog, strategy=strat_prog, examples={'quick': 60, 'thorough': 200}, shards={'quick': 4, 'thorough': 16},
           rule='generated programs on shipped and perturbed configurations: digest here (PYTHONHASHSEED=0) == digests from worker interpreters with other hash seeds and debug flags',
           required=['randomness_consumed', 'perturbed']),
